@@ -1459,7 +1459,46 @@ def runWith (q : Option IFunc) (rest : List String) : String :=
     | _, _ => "bad-op"
   | _, _ => "bad-op"
 
+/-! ### Float formats (the float rows of `convert_type`)
+
+The six builtin float formats, the LLVM IR type that denotes each, and the rows the pinned `convert_type`
+has: `f16/f32/f64` are translated, `bf16/f80/f128` raise "Type not supported" (llvmlite has no type for them). -/
+
+inductive FloatFmt where
+  | f16 | bf16 | f32 | f64 | f80 | f128
+  deriving DecidableEq, Repr
+
+namespace FloatFmt
+
+def ofName : String → Option FloatFmt
+  | "f16" => some f16 | "bf16" => some bf16 | "f32" => some f32
+  | "f64" => some f64 | "f80" => some f80 | "f128" => some f128
+  | _ => none
+
+/-- storage width in bits -/
+def bits : FloatFmt → Nat
+  | f16 => 16 | bf16 => 16 | f32 => 32 | f64 => 64 | f80 => 80 | f128 => 128
+
+/-- significand precision (hidden bit included): what distinguishes formats of one width -/
+def precision : FloatFmt → Nat
+  | f16 => 11 | bf16 => 8 | f32 => 24 | f64 => 53 | f80 => 64 | f128 => 113
+
+/-- the LLVM IR type with the same format -/
+def llvmName : FloatFmt → String
+  | f16 => "half" | bf16 => "bfloat" | f32 => "float"
+  | f64 => "double" | f80 => "x86_fp80" | f128 => "fp128"
+
+end FloatFmt
+
+/-- `convert_type` on a float type: the emitted LLVM type name, `none` = LLVMTranslationException. -/
+def convFloatTy : FloatFmt → Option String
+  | .f16 => some "half"
+  | .f32 => some "float"
+  | .f64 => some "double"
+  | _ => none
+
 /-- `prog <sexp>`: load a dialect function, answer `conv <ir sexp>` or `not-translated`;
+`fmt <float type>`: `<llvm type of that format> <what convert_type emits | not-translated>`;
 `ir <sexp>`: load an IR function re-read from emitted text; `run|runconv|runir <fuel> <val>*`. -/
 def lineStep (s : State) (line : String) : State × String :=
   match words line with
@@ -1478,6 +1517,10 @@ def lineStep (s : State) (line : String) : State × String :=
     match s.d, fuel.toNat?, args.mapM parseVal with
     | some f, some n, some vs => (s, showRes (semD f n vs))
     | _, _, _ => (s, "bad-op")
+  | ["fmt", name] =>
+    match FloatFmt.ofName name with
+    | none => (s, "bad-op")
+    | some f => (s, f.llvmName ++ " " ++ (convFloatTy f).getD "not-translated")
   | "runconv" :: rest => (s, runWith s.c rest)
   | "runir" :: rest => (s, runWith s.i rest)
   | _ => (s, "bad-op")
